@@ -27,21 +27,24 @@ type Replayer struct {
 type replayHandler func(rp *Replayer, o *Obligation) (pkgDir, testSrc string, ok bool)
 
 var replayHandlers = map[string]replayHandler{}
+var modelFreeReplay = map[string]bool{}
 
 // Replay tries to turn a refuted obligation into a concrete failing run of the real code.
 func (rp *Replayer) Replay(o *Obligation) (string, bool) {
-	if o.Status != "refuted" || o.Unit == nil {
-		return "", false
-	}
 	g := group(o.Name)
 	var h replayHandler
+	hpat := ""
 	for pat, hh := range replayHandlers {
-		if strings.HasPrefix(g, pat) {
-			h = hh
-			break
+		if strings.HasPrefix(g, pat) && len(pat) > len(hpat) {
+			h, hpat = hh, pat
 		}
 	}
 	if h == nil {
+		return "", false
+	}
+	// handlers that need the solver's model only run for refuted obligations; the others
+	// (dictionary / corpus concretisation) also run for undecided regressions
+	if (o.Status != "refuted" || o.Unit == nil) && !modelFreeReplay[hpat] {
 		return "", false
 	}
 	pkgDir, src, ok := h(rp, o)
